@@ -87,8 +87,10 @@ def c04(pid, tier, seed, scratch):
         wd = os.path.join(scratch, f"r{h}")
         os.makedirs(wd, exist_ok=True)
         hseed = seed * 1000 + 600 + h
+        # the first history is the fixed put/put/put/commit/delete/update sequence (pending tombstone and update records)
+        tomb = h == 0
         try:
-            rec = X.record(bindir, hseed, ops, wd)
+            rec = X.record(bindir, hseed, 6 if tomb else ops, wd, profile="tomb" if tomb else "crash")
         except C.Inconclusive as e:
             rep["inconclusive"].append({"case": f"history {hseed}", "reason": str(e)[:300]})
             continue
@@ -96,6 +98,14 @@ def c04(pid, tier, seed, scratch):
         # candidate seed images: operation boundaries right after put/update/delete (records pending)
         cands = [i for i in X.process_crash_images(rec) if not i["ctx"]["inside"] and i["ctx"]["op"] in ("put", "update", "delete")]
         rng.shuffle(cands)
+        # one seed image per kind of pending record first (insert, update, tombstone), then the rest
+        firsts, seen_ops = [], set()
+        for c in cands:
+            if c["ctx"]["op"] not in seen_ops:
+                seen_ops.add(c["ctx"]["op"])
+                firsts.append(c)
+        firsts.sort(key=lambda c: {"delete": 0, "update": 1}.get(c["ctx"]["op"], 2))  # tombstones and updates are the rarer seeds
+        cands = firsts + [c for c in cands if c not in firsts]
         used = 0
         for img in cands:
             if used >= max(1, n_seed_imgs // n_hist):
@@ -109,6 +119,7 @@ def c04(pid, tier, seed, scratch):
                 continue  # did not open (C02's business) or needed no recovery writes
             used += 1
             K._count(rep, "seed_images_needing_recovery")
+            K._count(rep, f"seed_images_after[{img['ctx']['op']}]")
             base_docs = X.docs_of(base_obs)
             # idempotence: open the recovered file again
             if final is not None:
@@ -117,7 +128,7 @@ def c04(pid, tier, seed, scratch):
                 rep["evaluations"] += 1
                 if again.get("open") != "ok" or X.docs_of(again) != base_docs:
                     K._violation(rep, "C04:second-open-changes-frames", f"history seed {hseed}: opening the recovered file again gives {again.get('open')} / different documents",
-                                 {"mode": "crash", "property": "C04", "seed": hseed, "ops": ops, "event_index": img["k"]})
+                                 {"mode": "crash", "property": "C04", "seed": hseed, "ops": 6 if tomb else ops, "profile": "tomb" if tomb else "crash", "event_index": img["k"]})
             level = [(img["bytes"], evs, target, 1)]
             while level:
                 nxt = []
@@ -135,15 +146,17 @@ def c04(pid, tier, seed, scratch):
                         phases.add(ph[0])
                         site = next((x for x in ph if x in K.IN_PLACE), ph[0])
                         if o.get("open") != "ok":
-                            fam = (o.get("open") or "?") + (":" + str(o.get("kind")) if o.get("open") == "err" else "")
-                            fam = "open-error" if fam.startswith("err") else fam
+                            # the error class is part of the key: "no TOC to be found" (the known in-place rewrite) and, say,
+                            # "a replayed record is refused" are different defects of the same code site
+                            fam = f"open-error:{o.get('kind')}" if o.get("open") == "err" else (o.get("open") or "?")
                             K._violation(rep, f"C04:{fam}:crash-inside={site}", f"history seed {hseed}, crash inside open-time recovery (depth {depth}) after its event {p['k']} ({p['event']}): {o.get('error') or o.get('message') or o.get('stderr', '')}"[:400],
-                                         {"mode": "crash", "property": "C04", "seed": hseed, "ops": ops, "event_index": img["k"], "recovery_event": p["k"], "depth": depth})
+                                         {"mode": "crash", "property": "C04", "seed": hseed, "ops": 6 if tomb else ops, "profile": "tomb" if tomb else "crash", "event_index": img["k"], "recovery_event": p["k"], "depth": depth})
                             continue
                         if X.docs_of(o) != base_docs:
                             why = X.match_state(X.docs_of(o), [{"uri": d["uri"], "status": d["status"], "content": None} for d in base_docs])
-                            K._violation(rep, f"C04:recovers-to-different-state:crash-inside={site}", f"history seed {hseed}, crash inside recovery (depth {depth}) after its event {p['k']}: {why or 'content differs'}",
-                                         {"mode": "crash", "property": "C04", "seed": hseed, "ops": ops, "event_index": img["k"], "recovery_event": p["k"], "depth": depth})
+                            cls = why[0] if why else "content-differs"
+                            K._violation(rep, f"C04:recovers-to-different-state:{cls}:crash-inside={site}", f"history seed {hseed}, crash inside recovery (depth {depth}) after its event {p['k']}: {why or 'content differs'}",
+                                         {"mode": "crash", "property": "C04", "seed": hseed, "ops": 6 if tomb else ops, "profile": "tomb" if tomb else "crash", "event_index": img["k"], "recovery_event": p["k"], "depth": depth})
                             continue
                         if depth < 3:
                             nwd = os.path.join(owd, f"n{depth}-{p['k']}")
